@@ -23,10 +23,13 @@ pub enum Op {
 
 pub const REG_LANGS: [L; 2] = [L::None, L::En];
 pub const RECS: [(usize, &str, usize); 4] = [(1, "alpha beta", 5), (2, "beta", 9), (3, "al", 7), (4, "alpha", 9)];
-pub const LIMITS: [usize; 3] = [0, 1, 10];
+/// 12 lies above the registry's initial buffer capacity (10); from the crowd start twelve records match "alpha"
+pub const LIMITS: [usize; 4] = [0, 1, 10, 12];
 /// index 0 must stay the store default ("[", "]"): the reference model starts there
 pub const MARKERS: [(&str, &str); 3] = [("[", "]"), ("<b>", "</b>"), ("\u{ab}", "\u{bb}")];
-pub const QUERIES: [&str; 4] = ["", "be", "alpha", "al "];
+/// "elphe" is "alpha" with two vowel typos: a hit under English character classes (0.5 each), none without a language -
+/// the same text means different tokens on ids with different languages
+pub const QUERIES: [&str; 5] = ["", "be", "alpha", "al ", "elphe"];
 
 #[derive(Clone, Debug)]
 struct MStore {
@@ -355,7 +358,7 @@ impl Prop for C20 {
         let mut summary: Vec<(Vec<usize>, u32, u32, usize)> = self.configs.iter().map(|c| (c.0.clone(), c.1, c.2, c.3)).collect();
         summary.dedup();
         vec![Dom::new("registry-bfs", self.configs.len() as u64, 1).budget(self.tier.pick(170, 3000)).note(format!(
-            "one case per (configuration, first operation); configurations (store ids, merged depth, unmerged depth, start state 0 = empty registry / 1 = store 1 preloaded with two records / 2 = store 1 preloaded with a crowd of fifteen records at limit 1, where the candidate cap cuts): {:?}; ops: create x2 languages, destroy, add_record x4 (one rating tie), set_limit x3 (0, 1, 10), highlight_with x3 (default, a longer ASCII pair, a multi-byte pair), run_search x4 (empty, prefix, whole word, finished word with a trailing space) per id, valid calls only; using_results read for every live id after every operation",
+            "one case per (configuration, first operation); configurations (store ids, merged depth, unmerged depth, start state 0 = empty registry / 1 = store 1 preloaded with two records / 2 = store 1 preloaded with a crowd of fifteen records at limit 1, where the candidate cap cuts): {:?}; ops: create x2 languages, destroy, add_record x4 (one rating tie), set_limit x4 (0, 1, 10, 12), highlight_with x3 (default, a longer ASCII pair, a multi-byte pair), run_search x5 (empty, prefix, whole word, finished word with a trailing space, a word with two vowel typos that only matches under a language's character classes) per id, valid calls only; using_results read for every live id after every operation",
             summary
         ))]
     }
